@@ -503,3 +503,74 @@ def state_uses(idx, fi):
                     if (m_, a_) in state:
                         hits.append((f_, n, (m_, a_)))
     return hits
+
+
+def state_is_content_checked(idx, fi, hits):
+    """Some use of the module state in `fi` (helpers included) is compared (== / !=) with text read from a file in the same function:
+    a cache that is validated against the current content before it is reused.  Whether the validation is complete is beyond
+    these rules - callers answer "cannot decide" instead of reporting the cache."""
+    for f_ in {h[0] for h in hits}:
+        node = f_.node
+        fresh = set()
+        for n in own_nodes(node):
+            if isinstance(n, ast.Assign) and len(n.targets) == 1 and isinstance(n.targets[0], ast.Name) and isinstance(n.value, ast.Call) and isinstance(n.value.func, ast.Attribute) and n.value.func.attr in ("readlines", "read", "read_text", "read_bytes"):
+                fresh.add(n.targets[0].id)
+        if not fresh:
+            continue
+        statenames = {h[2][1] for h in hits if h[0] is f_}
+        derived = set(statenames)
+        for _ in range(3):
+            for n in own_nodes(node):
+                if isinstance(n, ast.Assign) and (names_in(n.value) & derived):
+                    for t in n.targets:
+                        derived |= {x.id for x in ast.walk(t) if isinstance(x, ast.Name)}
+        derived -= fresh
+        for n in own_nodes(node):
+            if isinstance(n, ast.Compare) and len(n.ops) == 1 and isinstance(n.ops[0], (ast.Eq, ast.NotEq)):
+                l, r = names_in(n.left), names_in(n.comparators[0])
+                if (l & derived and r & fresh) or (r & derived and l & fresh):
+                    return True
+    return False
+
+
+def zip_parallel(fi, loop):
+    """`for a, b, c in zip(A, B, C)` where B and C are element-wise maps of A (directly or through another element-wise map of A):
+    {b: expression of a, c: expression of a}.  Names that cannot be traced are left out."""
+    import copy
+
+    out = {}
+    it = loop.iter
+    if not (isinstance(it, ast.Call) and isinstance(it.func, ast.Name) and it.func.id == "zip" and isinstance(loop.target, ast.Tuple) and len(loop.target.elts) == len(it.args) and all(isinstance(x, ast.Name) for x in loop.target.elts)):
+        return out
+    if not (it.args and isinstance(it.args[0], ast.Name)):
+        return out
+    base = it.args[0].id
+    first = loop.target.elts[0].id
+    defs = single_defs(fi)
+
+    def as_map_of_base(name, depth=0):
+        """the comprehension element of list `name` written in terms of `first`, or None"""
+        if name == base:
+            return ast.Name(id=first, ctx=ast.Load())
+        d = defs.get(name)
+        if depth > 3 or not isinstance(d, (ast.ListComp, ast.GeneratorExp)) or len(d.generators) != 1 or d.generators[0].ifs or not isinstance(d.generators[0].target, ast.Name) or not isinstance(d.generators[0].iter, ast.Name):
+            return None
+        inner = as_map_of_base(d.generators[0].iter.id, depth + 1)
+        if inner is None:
+            return None
+        var = d.generators[0].target.id
+
+        class S(ast.NodeTransformer):
+            def visit_Name(self, x):
+                if x.id == var and isinstance(x.ctx, ast.Load):
+                    return copy.deepcopy(inner)
+                return x
+
+        return S().visit(copy.deepcopy(d.elt))
+
+    for tgt, arg in zip(loop.target.elts[1:], it.args[1:]):
+        if isinstance(arg, ast.Name):
+            e = as_map_of_base(arg.id)
+            if e is not None:
+                out[tgt.id] = e
+    return out
